@@ -59,6 +59,7 @@ static Case decode(const uint8_t* data, size_t size) {
   int64_t a = coord(r, mode, R), b = coord(r, mode, R), d = coord(r, mode, R), f = coord(r, mode, R);
   c.p64["rect"] = Paths64{ Path64{ Point64(std::min(a, b), std::min(d, f)), Point64(std::max(a, b), std::max(d, f)) } };
   c.p64["S"] = paths(r, mode, R, 4); c.p64["C"] = paths(r, mode, R, 4); c.p64["O"] = paths(r, mode, R, 2);
+  if (R > ((int64_t)1 << 61)) c.set("_tags", "coords_above_2^61");   // same input-class tag as mon_c10's tag_case
   return c;
 }
 
